@@ -4,7 +4,7 @@
 (* instrumented handlers of the harness while the real flamego serves a    *)
 (* request are fed to the monitor of Chain.tla, one event per step.        *)
 (*   reset{}                                   next case (fresh Flame)     *)
-(*   req{kinds, n, env, rh}                    a request begins; kinds[i]  *)
+(*   req{kinds,n,env,rh,method}                 a request begins; kinds[i]  *)
 (*                                             = kind of chain position i-1*)
 (*   enter/exit/next/nextret/write/cancel/panic/punwind/escape/end         *)
 (* An event is rejected at the step where the monitor turns not-ok.        *)
@@ -20,7 +20,7 @@ TReq == /\ IsEv("req")
         /\ LET e == Tr[l]
                k == [i \in 0..e.n |-> e.kinds[i + 1]]
            IN /\ pk' = k /\ nn' = e.n /\ env' = e.env
-              /\ m' = [MInit(k, e.n) EXCEPT !.rh = e.rh]
+              /\ m' = [MInit(k, e.n) EXCEPT !.rh = e.rh, !.head = (e.method = "HEAD")]
 \* D8 (cursor shared by run() and Next()): a second Next() after the nested run stopped on a write
 \* skips exactly one handler
 D8Skip(e) == /\ "D8" \in Dev /\ e.e = "enter" /\ m.ok /\ ~m.pan /\ m.pend = "may"
